@@ -209,7 +209,7 @@ def build(tier):
     if tier in _CACHE:
         return _CACHE[tier]
     r = common.rng("C17.sessions")
-    nsess = 6 if tier == "quick" else 40
+    nsess = 8 if tier == "quick" else 80
     cap = 30 if tier == "quick" else 90
     cases = {"stream": [], "dgram": []}
     py_fail, keys = [], []
